@@ -10,6 +10,7 @@ import (
 	"path/filepath"
 	"sort"
 	"strings"
+	"sync"
 	"sync/atomic"
 	"time"
 
@@ -44,6 +45,9 @@ func init() { register("C10", runC10) }
 //	X                 restart: close the database, reopen the same SQLite file, rebuild services + engine
 //	Cf:<cred>:<name>  like C, but the COMMIT of the INSERT fails (SQLite commit hook turns it into a ROLLBACK)
 //	Rf:<cred>:<name>  like R, but the COMMIT of the DELETE fails
+//	Cl:<cred>:<name>  like C, but ANOTHER connection holds the database's write lock (BEGIN IMMEDIATE on a second *sql.DB on
+//	Rl:<cred>:<name>  the same file) until the call has returned: the write cannot be done, the answer must say so
+//	                  (c:fail / r:fail after the service's busy timeout, about 5 s) and nothing may have changed
 //	RACE:<name>       (after a restart, so that nothing about the value is remembered in memory)
 //	                  an authenticate (GET /api/v1/access) of the value is started in a goroutine and held right after
 //	                  the token repository's lookup returned (decorated repository.Tokens); DELETE /api/v1/access/<value>
@@ -228,17 +232,25 @@ func (st *c10State) open(dir string) error {
 func (st *c10State) op(o string, dir string) string {
 	p := strings.Split(o, ":")
 	switch {
-	case (p[0] == "C" || p[0] == "Cf") && len(p) == 3:
+	case (p[0] == "C" || p[0] == "Cf" || p[0] == "Cl") && len(p) == 3:
 		if p[0] == "Cf" {
 			atomic.StoreInt32(&st.failCommit, 1)
 		}
+		unlock := func() {}
+		if p[0] == "Cl" {
+			var err error
+			if unlock, err = holdWriteLock(st.fs.DBPath); err != nil {
+				return "c:HARNESS-ERROR(lock)"
+			}
+		}
 		code, body := st.do("POST", "/api/v1/access", st.resolve(p[1]))
+		unlock()
 		atomic.StoreInt32(&st.failCommit, 0)
 		if code == 401 {
 			return "c:401"
 		}
 		if code != 200 {
-			if p[0] == "Cf" && code >= 400 && code < 600 {
+			if p[0] != "C" && code >= 400 && code < 600 {
 				return "c:fail"
 			}
 			return fmt.Sprintf("c:E%d", code)
@@ -259,18 +271,26 @@ func (st *c10State) op(o string, dir string) string {
 		st.seen[t.Token] = true
 		st.bind[p[2]] = t.Token
 		return "c:ok"
-	case (p[0] == "R" || p[0] == "Rf") && len(p) == 3:
+	case (p[0] == "R" || p[0] == "Rf" || p[0] == "Rl") && len(p) == 3:
 		if p[0] == "Rf" {
 			atomic.StoreInt32(&st.failCommit, 1)
 		}
+		unlock := func() {}
+		if p[0] == "Rl" {
+			var err error
+			if unlock, err = holdWriteLock(st.fs.DBPath); err != nil {
+				return "r:HARNESS-ERROR(lock)"
+			}
+		}
 		code, _ := st.do("DELETE", "/api/v1/access/"+url.PathEscape(st.resolve(p[2])), st.resolve(p[1]))
+		unlock()
 		atomic.StoreInt32(&st.failCommit, 0)
 		switch {
 		case code == 200:
 			return "r:ok"
 		case code == 401:
 			return "r:401"
-		case p[0] == "Rf" && code >= 400 && code < 600:
+		case p[0] != "R" && code >= 400 && code < 600:
 			return "r:fail"
 		}
 		return fmt.Sprintf("r:E%d", code)
@@ -705,6 +725,7 @@ func c10Gen(c *Ctx, maxLen int) string {
 func runC10(c *Ctx) error {
 	st := &c10State{c: c, seen: map[string]bool{}, admin: config.DefaultAppToken}
 	idx := 0
+	var emit func(input, class, obs string, real bool)
 	one := func(input, class string) error {
 		idx++
 		if st.slow >= 3 && c.Only == "" {
@@ -718,10 +739,14 @@ func runC10(c *Ctx) error {
 		if err != nil {
 			return err
 		}
+		emit(input, class, obs, st.real)
+		return nil
+	}
+	emit = func(input, class, obs string, real bool) {
 		c.Case(input, obs)
 		flushCases(c)
 		c.Count("case:" + class)
-		if st.real {
+		if real {
 			c.Count("ws:real-client")
 		} else {
 			c.Count("ws:token-check-only")
@@ -743,13 +768,59 @@ func runC10(c *Ctx) error {
 			c.Count("admin-token:default")
 		}
 		c.Count(fmt.Sprintf("len:%02d-%02d", (len(strings.Split(input, ";"))-1)/10*10+1, (len(strings.Split(input, ";"))-1)/10*10+10))
-		return nil
 	}
 	if c.Only != "" {
 		if err := one(c.Only, "only"); err != nil {
 			return err
 		}
 		c.Meta("tokens_generated", fmt.Sprint(len(st.seen)))
+		return nil
+	}
+	// "another writer holds the write lock" costs the service's busy timeout (about 5 s) per operation: these cases
+	// run concurrently with everything else, each on a stack (and harness state) of its own
+	lockCases := []string{
+		"C:adm:a;H:a;Rl:adm:a;H:a;W:a;X;H:a;R:adm:a;H:a",
+		"Cl:adm:a;H:a;X;H:a;C:adm:b;H:b;W:b",
+		"C:adm:a;Cl:a:b;Rl:a:a;Rl:non:a;Rl:adm:u1;H:a;H:b",
+	}
+	if c.Thorough() {
+		lockCases = append(lockCases,
+			"C:adm:a;C:adm:b;Rl:adm:a;Rl:adm:b;H:a;H:b;X;H:a;H:b",
+			"Cl:adm:a;Cl:adm:b;H:a;H:b;C:adm:a;H:a",
+			"Ad=Z;C:adm:a;Rl:adm:a;H:a",
+			"Ae="+pctEncode("tok$1")+";C:adm:a;Rl:adm:a;Cl:adm:b;H:a;H:b;X;H:a",
+			"C:adm:a;RACE:a;Cl:adm:a;H:a;Rl:adm:adm;H:adm",
+			"C:adm:a;Rl:adm:a;R:adm:a;H:a;Cl:adm:a;C:adm:a;H:a",
+			"C:adm:a;OVL:a:u1;Rl:adm:a;SLW:a:u1;H:a",
+			"C:adm:a;Rf:adm:a;Rl:adm:a;H:a;X;H:a")
+	}
+	type lockRes struct {
+		input, obs string
+		real       bool
+		err        error
+	}
+	lockOut := make([]lockRes, len(lockCases))
+	var lockWG sync.WaitGroup
+	lockSem := make(chan struct{}, 4)
+	for i, in := range lockCases {
+		lockWG.Add(1)
+		go func(i int, in string) {
+			defer lockWG.Done()
+			lockSem <- struct{}{}
+			defer func() { <-lockSem }()
+			ls := &c10State{c: c, seen: map[string]bool{}, admin: config.DefaultAppToken}
+			obs, err := ls.runCase(in, 900000+i)
+			lockOut[i] = lockRes{in, obs, ls.real, err}
+		}(i, in)
+	}
+	joinLock := func() error {
+		lockWG.Wait()
+		for _, r := range lockOut {
+			if r.err != nil {
+				return r.err
+			}
+			emit(r.input, "write-lock-held", r.obs, r.real)
+		}
 		return nil
 	}
 	files, _ := filepath.Glob(filepath.Join(c10VerifDir(), "corpus", "C10", "*.txt"))
@@ -793,6 +864,9 @@ func runC10(c *Ctx) error {
 				return err
 			}
 		}
+	}
+	if err := joinLock(); err != nil {
+		return err
 	}
 	c.Meta("tokens_generated", fmt.Sprint(len(st.seen)))
 	c.Meta("tokens_pairwise_distinct", "asserted on every create (c:DUP otherwise)")
